@@ -1,3 +1,4 @@
 SPECIFICATION TSpec
 CONSTANT CHECKS = {"query"}
+CONSTANT Deviations = {}
 POSTCONDITION TraceAccepted
